@@ -285,6 +285,7 @@ def maskVal : Val → Val
     | some m => .int (m : Int)
     | none => .other "<mask>"
   | .dyn => .dyn
+  | .bool b => .int (if b then 2 else 1)      -- `1 << True`
   | _ => .other "<mask>"
 
 /-- `board if isinstance(board, int) else list(board)[0]` -/
@@ -504,12 +505,18 @@ def destOk (pats : List Pat) (ds : List Datagram) : Bool :=
 def connOkMc (c : McCfg) (d : Datagram) : Bool :=
   d.conn == (getConnection c d.x d.y).map (fun e => [e.1, e.2])
 
+/-- a Python int: `int`, or `bool` (`True == 1`, also as a dictionary key) -/
+def Val.asInt? : Val → Option Int
+  | .int i => Option.some i
+  | .bool b => Option.some (if b then 1 else 0)
+  | _ => Option.none
+
 /-- **connection oracle (BMP)**: over the most specific connection of some pattern that matches -/
 def connOkBmp (conns : List (List Int)) (pats : List Pat) (d : Datagram) : Bool :=
   pats.any fun pt =>
     pt.matches d &&
-    (match pt.a, pt.b, pt.c with
-     | .int c, .int f, .int b =>
+    (match pt.a.asInt?, pt.b.asInt?, pt.c.asInt? with
+     | some c, some f, some b =>
        (match bmpConnection conns c f b with
         | .ok k => d.conn == some k
         | .error _ => false)
@@ -579,8 +586,8 @@ def callRes (E : Env) (m : String) (pos : List Val) (kw : Dict) (stack : List Di
       | .ok b =>
         let pats := wire E.sigs E.cls wireFuel m b stack
         if E.cls = "BMPController" ∧ pats.any (fun pt =>
-            match pt.a, pt.b, pt.c with
-            | .int c, .int f, .int bd => (bmpConnection E.bmpConns c f bd).toBool == false
+            match pt.a.asInt?, pt.b.asInt?, pt.c.asInt? with
+            | some c, some f, some bd => (bmpConnection E.bmpConns c f bd).toBool == false
             | _, _, _ => false) then .rejected .noConnection
         else .sent nk pats
 
@@ -713,7 +720,11 @@ def valOfJson : Json → R Val
         | _ =>
           match j.getObjVal? "l" with
           | .ok (.arr a) => do pure (.ints (← a.toList.mapM asInt))
-          | _ => .error "bad value"
+          | _ =>
+            -- an int of another kind (IntEnum member, numpy integer): the value is what counts
+            match j.getObjVal? "n" with
+            | .ok n => do pure (.int (← asInt n))
+            | _ => .error "bad value"
 
 def valToJson : Val → Json
   | .none => .null
@@ -790,6 +801,18 @@ partial def progOfJson (j : Json) : R Prog := do
       | "block" =>
         pure (Prog.block (← nat st "id") (← dictOfJson (← field st "ctx"))
           (← progOfJson (← field st "body")) (← optProg st "cb") (← go rest))
+      | "deep" => do
+        -- `n` nested `with c(**ctxs[i % k]):` blocks (ids id, id+1, ..) around `body`, written flat
+        let n ← nat st "n"
+        let base ← nat st "id"
+        let ctxs ← (← arr st "ctxs").mapM dictOfJson
+        let body ← progOfJson (← field st "body")
+        let rest ← go rest
+        if n = 0 ∨ ctxs.isEmpty then pure body
+        else
+          let inner := (List.range (n - 1)).foldr
+            (fun i p => Prog.block (base + 1 + i) (ctxs.getD ((1 + i) % ctxs.length) []) p .done .done) body
+          pure (Prog.block base (ctxs.getD 0 []) inner .done rest)
       | "new" => pure (.new (← nat st "oid") (← dictOfJson (← field st "ctx")) (← go rest))
       | "newapp" =>
         pure (.newApp (← nat st "id") (← nat st "oid") (← valsOfJson (← field st "pos"))
